@@ -602,6 +602,12 @@ fn main() {
         eprintln!("c06: replayed {} cases", st.cases);
         return;
     }
+    // widths of the cursor's / iterators' index fields, measured by the unity build; judged in Lean
+    match std::process::Command::new(&langdump).arg("cwidths").output() {
+        Ok(o) if o.status.success() => out.write_all(&o.stdout).unwrap(),
+        Ok(o) => eprintln!("cwidths probe failed: {}", String::from_utf8_lossy(&o.stderr)),
+        Err(e) => eprintln!("cwidths probe: {e}"),
+    }
     if let Some(corpus) = zoo_corpus("c06") {
         run_specs(&corpus, "c", &mut out, &mut st, &mut loaded, &mut get_lang);
     }
